@@ -2,6 +2,7 @@
 import ast
 
 from .model import ClassInfo, FuncInfo, canon_exc
+from .icore import Env, Frame
 from .terms import *  # noqa
 
 BINOPS = {ast.Add: '+', ast.Sub: '-', ast.Mult: '*', ast.Div: '/', ast.Mod: '%',
@@ -289,6 +290,17 @@ class ExprMixin(object):
                 return None
             if isinstance(a, ClsRef) and isinstance(b, ClsRef):
                 return a.cls is b.cls
+            # a module-level sentinel "X = object()": identical to itself, to nothing else
+            sa = isinstance(a, Call) and a.fn == 'object' and not a.args
+            sb = isinstance(b, Call) and b.fn == 'object' and not b.args
+            if sa and sb:
+                return a is b or (a.node is not None and a.node == b.node)
+            if sa or sb:
+                other = b if sa else a
+                if isinstance(other, (Const, Sub, MCall, Fmt, Bin, Obj, ListObj, DictObj,
+                                      TupleT, EnumVal, ClsRef, ExcVal)) or \
+                        (isinstance(other, Call) and other.fn != 'object'):
+                    return False
             solid = (Obj, ClsRef, EnumVal, FuncRef, Bound, ListObj, DictObj, TupleT, ExcVal,
                      LambdaRef, GenObj, Fmt)
             if isinstance(a, Const) and a.value is None and isinstance(b, solid):
@@ -443,7 +455,13 @@ class ExprMixin(object):
         if kind == 'method':
             return self.bind_method(obj, payload)
         if kind == 'attr':
-            return self.class_level_value(owner, name, payload)
+            v = self.class_level_value(owner, name, payload)
+            if isinstance(v, FuncRef) and v.closure is None and v.func.cls is not None and \
+                    v.func.kind == 'function':
+                # "alias = method" in the class body: a function of the class, looked
+                # up on an instance, is a bound method
+                return Bound(obj, v.func)
+            return v
         if kind == 'nested':
             return ClsRef(payload)
         if kind == 'field':
@@ -590,7 +608,35 @@ class ExprMixin(object):
         return self.comprehension(e, [e.elt], 'set')
 
     def ev_GeneratorExp(self, e):
-        return self.comprehension(e, [e.elt], 'list')
+        """A generator expression that is not consumed on the spot (see ev_Call) is a
+        lazy generator: an anonymous generator function closed over the frame."""
+        body = ast.Expr(ast.Yield(e.elt))
+        for gen in reversed(e.generators):
+            for cond in reversed(gen.ifs):
+                body = ast.If(cond, [body], [])
+            body = ast.For(gen.target, gen.iter, [body], [], None)
+        fn = ast.FunctionDef('<genexpr>', ast.arguments([], [], None, [], [], None, []),
+                             [body], [], None, None)
+        try:
+            fn.type_params = []
+        except Exception:
+            pass
+        ast.copy_location(fn, e)
+        ast.fix_missing_locations(fn)
+        for x in ast.walk(fn):
+            if not hasattr(x, 'lineno') or x.lineno is None:
+                x.lineno = e.lineno
+        fi = FuncInfo('<genexpr>', self.frame.qualname + '.<genexpr>', self.frame.module, fn,
+                      self.frame.func.cls if self.frame.func else None)
+        fi.is_generator = True
+        line = getattr(e, 'lineno', 0)
+        stack = self.frame.stack + ((self.frame.qualname, self.frame.module.relpath, line),)
+        fr = Frame(fi, self.frame.module, Env(self.frame.env), stack, self.frame.depth + 1)
+        fr.caught = []
+        fr.is_gen = True
+        g = GenObj(fi, fr, self.cur)
+        self.gen_objs.append(g)
+        return g
 
     def ev_DictComp(self, e):
         return self.comprehension(e, [e.key, e.value], 'dict')
